@@ -61,7 +61,7 @@ def _menu(name, c, A):
 
 def _rhs_list(nq, nz, nr):
     """(kind, array[mode, z, r]) right-hand sides: impulse k at radial node k%nr of mode (k//nr)%nq in plane z = k%nz with a complex
-    weight, a dense one, the dense one at amplitude 1e-11 (linearity: nothing may be treated as 'zero' by an absolute tolerance),
+    weight, a dense one, the dense one at amplitude 1e-20 (linearity: nothing may be treated as 'zero' by an absolute tolerance),
     and one whose lines differ in scale by 17 orders of magnitude"""
     import numpy as np
     out = []
@@ -71,7 +71,7 @@ def _rhs_list(nq, nz, nr):
         out.append(('impulse', R))
     dense = np.fromfunction(lambda a, b, cc: np.cos(1.0 + a + 2 * cc) + 1j * np.sin(0.3 + b + cc * a), (nq, nz, nr))
     out.append(('dense', dense))
-    out.append(('tiny', dense * 1e-11))
+    out.append(('tiny', dense * 1e-20))
     mixed = dense.copy()
     mixed[1] *= 1e-10
     mixed[:, 1] *= 1e7
